@@ -225,7 +225,7 @@ def default_search(run):
     budget = int(os.environ.get("VERIF_SEARCH_S", "90"))
     deep = Run(run.prop, "thorough", run.seed)
 
-    class _Timeout(Exception):
+    class _Timeout(BaseException):      # not an Exception: must not be mistaken for an error of the code under test
         pass
 
     def _alarm(*a):
